@@ -31,6 +31,8 @@ def run(rep, tier, seed, replay):
         fam = _gen.exh_family(_random.Random(seed), 4000 if tier == "quick" else None)
         known = set(exprs)
         exprs += [e for e in fam if e not in known]
+        known = set(exprs)
+        exprs += [e for e in _gen.nested_tree_edge_family() + _gen.tree_position_family() + _gen.nest3_family(3)[::3] if e not in known]
         sr = _gen.sibling_ranges_family()
         known = set(exprs)
         exprs += [e for e in (_random.Random(seed + 4).sample(sr, 600) if tier == "quick" else sr) if e not in known]
